@@ -19,6 +19,7 @@
      consequence of the algebra; C19_open_iff covers altered ciphertext and tag);
    * that every low-order point gives an all-zero result for every scalar (three examples in Spec/X25519Kat.v). *)
 From Kestrel Require Import Bytes Outcome Prims.
+From Kestrel.gen Require Import Extracted.
 From Kestrel.Model Require Import AeadWrap.
 From Kestrel.Spec Require Import Sha256 Hmac Hkdf HashFacts ChaCha20 Poly1305 ChaPoly ChaPolyFacts X25519 Concrete.
 From Kestrel.Proofs Require Import PrimFacts.
@@ -207,3 +208,34 @@ Theorem C19_rfc_hash_laws :
 Proof. exact (rfc_hash_ok). Qed.
 Print Assumptions C19_rfc_hash_laws.
 
+
+(* wrapper hkdf_sha256 (audit finding 5): `derive_key(..).unwrap()` — for every requested length the call either returns the primitive's value (1 <= len <= 8160 = 255 * 32) or PANICS (len = 0, len > 8160); there is no error value *)
+Theorem C19_hkdf_sha256_cases :
+  forall (P : prims) (salt ikm info : bytes) (len : nat),
+  hkdf_sha256 P salt ikm info len = Ok (p_hkdf P salt ikm info len) /\ (1 <= len <= 255 * 32)%nat \/
+  hkdf_sha256 P salt ikm info len = Panic PUnwrap /\ (len = 0 \/ 255 * 32 < len)%nat.
+Proof. exact (hkdf_sha256_cases). Qed.
+Print Assumptions C19_hkdf_sha256_cases.
+
+(* the two panicking ranges separately *)
+Theorem C19_hkdf_sha256_panics :
+  forall (P : prims) (salt ikm info : bytes) (len : nat),
+  (len = 0 \/ 255 * 32 < len)%nat -> hkdf_sha256 P salt ikm info len = Panic PUnwrap.
+Proof. exact (hkdf_sha256_panics). Qed.
+Print Assumptions C19_hkdf_sha256_panics.
+
+(* on the RFC instance: a returned value IS RFC 5869 HKDF-SHA-256(salt, ikm, info, len), has exactly len bytes, and len is in the RFC's range *)
+Theorem C19_hkdf_sha256_is_rfc :
+  forall (scr : bytes -> bytes -> N -> N -> N -> nat -> bytes) (salt ikm info : bytes) (len : nat) (out : bytes),
+  hkdf_sha256 (rfc_prims scr) salt ikm info len = Ok out ->
+  out = hkdf salt ikm info len /\ length out = len /\ (1 <= len <= 255 * 32)%nat.
+Proof. exact (hkdf_sha256_is_rfc). Qed.
+Print Assumptions C19_hkdf_sha256_is_rfc.
+
+(* kestrel's own calls (key_encrypt / key_decrypt) pass the literal lengths read from the sources: there the wrapper cannot panic and equals the direct use of the primitive made by Model/Files.v *)
+Theorem C19_hkdf_sha256_own_calls :
+  forall (P : prims) (salt ikm info : bytes),
+  hkdf_sha256 P salt ikm info (N.to_nat x_enc_hkdf_len) = Ok (p_hkdf P salt ikm info (N.to_nat x_enc_hkdf_len)) /\
+  hkdf_sha256 P salt ikm info (N.to_nat x_dec_hkdf_len) = Ok (p_hkdf P salt ikm info (N.to_nat x_dec_hkdf_len)).
+Proof. exact (hkdf_sha256_own_calls). Qed.
+Print Assumptions C19_hkdf_sha256_own_calls.
